@@ -147,6 +147,15 @@ fn act_str(a: &Action<u32>) -> String {
 
 /// Check one specification. Returns statistics; violations go to `ctx`.
 fn check_spec(ctx: &Ctx, mode: Mode, g: &RefGrammar) -> Stats {
+    ctx.guard(
+        &format!("building / querying the table of {}", g.short()),
+        || json!({"grammar": g.to_json(), "detail": null}),
+        Stats::default(),
+        || check_spec_inner(ctx, mode, g),
+    )
+}
+
+fn check_spec_inner(ctx: &Ctx, mode: Mode, g: &RefGrammar) -> Stats {
     let mut st = Stats::default();
     st.specs = 1;
     let case = |extra: serde_json::Value| json!({"grammar": g.to_json(), "detail": extra});
